@@ -190,6 +190,10 @@ def run(ctx):
                             found=True)
             continue
         case["points"] = pts
+        for fld in ("species_orders", "species_sources"):
+            dist.setdefault(fld, {})
+            for v in case.get(fld, []):
+                dist[fld][v] = dist[fld].get(v, 0) + 1
         dist.setdefault("structure", {})
         dist["structure"][case.get("structure", "indep")] = dist["structure"].get(case.get("structure", "indep"), 0) + 1
         seen_net = {}
